@@ -5,6 +5,7 @@ package runner
 
 import (
 	"bufio"
+	"context"
 	"encoding/binary"
 	"encoding/json"
 	"flag"
@@ -99,6 +100,7 @@ type Ctx struct {
 	distinct map[uint64]struct{}
 	outcomes map[uint64]struct{}
 	hb       string
+	outFile  string
 	raceLog  string
 	raceOff  map[string]int
 	mu       sync.Mutex
@@ -380,7 +382,7 @@ func runWorker(args []string) int {
 	c := &Ctx{Check: o.check, Tier: o.tier, Seed: o.seed, Worker: o.worker, Workers: o.workers, Verif: o.verif, Variant: o.variant,
 		Work:     filepath.Join(o.workdir, fmt.Sprintf("w%s%d", o.variant, o.worker)),
 		distinct: map[uint64]struct{}{}, outcomes: map[uint64]struct{}{},
-		hb: o.outFile + ".hb", raceLog: strings.TrimSuffix(o.outFile, ".json"), raceOff: map[string]int{}}
+		outFile: o.outFile, hb: o.outFile + ".hb", raceLog: strings.TrimSuffix(o.outFile, ".json"), raceOff: map[string]int{}}
 	c.raceLog = filepath.Join(filepath.Dir(o.outFile), "race-"+strings.TrimSuffix(filepath.Base(o.outFile), ".json"))
 	_ = os.MkdirAll(c.Work, 0o755)
 	c.out.Counters = map[string]int64{}
@@ -404,6 +406,15 @@ func runWorker(args []string) int {
 		}()
 		ck.Run(c)
 	}()
+	if err := c.flush(); err != nil {
+		fmt.Fprintln(os.Stderr, err)
+		return 2
+	}
+	return code
+}
+
+// flush writes the worker's result file.
+func (c *Ctx) flush() error {
 	for h := range c.distinct {
 		c.out.Distinct = append(c.out.Distinct, h)
 	}
@@ -412,12 +423,28 @@ func runWorker(args []string) int {
 		c.out.Outcomes = append(c.out.Outcomes, h)
 	}
 	b, _ := json.Marshal(&c.out)
-	if err := os.WriteFile(o.outFile, b, 0o644); err != nil {
-		fmt.Fprintln(os.Stderr, err)
-		return 2
+	if err := os.WriteFile(c.outFile, b, 0o644); err != nil {
+		return err
 	}
 	_ = os.Remove(c.hb)
-	return code
+	return nil
+}
+
+// Watch guards one case against a hang of the code under test: if stop is not called within d, the case is
+// reported as a violation ("hang:"+label, replayable through scenario), the worker's results so far are
+// written and the worker exits (a hung goroutine cannot be recovered, the process state is lost with it).
+// d must be far beyond what the case takes on a loaded machine; it is a timeout, not an exploration.
+func (c *Ctx) Watch(label string, scenario any, d time.Duration) (stop func()) {
+	t := time.AfterFunc(d, func() {
+		if f, ok := scenario.(func() any); ok {
+			scenario = f() // evaluated now: the choices made up to the hang
+		}
+		c.Violation("hang:"+label, fmt.Sprintf("the case did not return within %s (the code under test blocks for ever, or loops)", d), scenario)
+		c.Incomplete("worker stopped after a hang")
+		_ = c.flush()
+		os.Exit(0)
+	})
+	return func() { t.Stop() }
 }
 
 func runParent(args []string) int {
@@ -480,7 +507,13 @@ func runParent(args []string) int {
 			go func(variant, bin string, i int) {
 				name := fmt.Sprintf("worker-%s%d", variant, i)
 				out := filepath.Join(work, name+".json")
-				cmd := exec.Command(bin, "worker", "-check", o.check, "-tier", o.tier, "-workers", strconv.Itoa(per),
+				// backstop: a worker that is still running long after its cooperative deadline is killed
+				ctx, cancel := context.WithCancel(context.Background())
+				if o.deadline > 0 {
+					ctx, cancel = context.WithTimeout(context.Background(), time.Duration(o.deadline+600)*time.Second)
+				}
+				defer cancel()
+				cmd := exec.CommandContext(ctx, bin, "worker", "-check", o.check, "-tier", o.tier, "-workers", strconv.Itoa(per),
 					"-worker", strconv.Itoa(i), "-verif", o.verif, "-out", out, "-deadline", strconv.Itoa(o.deadline),
 					"-seed", strconv.FormatInt(o.seed, 10), "-workdir", work, "-variant", variant)
 				cmd.Env = append(os.Environ(), "GOMAXPROCS="+gomaxprocs(ck), "GOGC=400", "TMPDIR="+work,
